@@ -115,6 +115,11 @@ pub struct Stats {
     pub last_sample: Option<Value>,
 }
 
+/// Root of the verification tree (`/verif`, or a scratch copy when VERIF_ROOT is set by ./check).
+pub fn verif_root() -> String {
+    std::env::var("VERIF_ROOT").unwrap_or_else(|_| "/verif".to_string())
+}
+
 pub const MAX_HASHES_PER_WORKER: usize = 400_000;
 
 pub fn splitmix(mut x: u64) -> u64 {
@@ -307,10 +312,10 @@ impl Ctx {
             }
             i += 1;
         }
-        let replay_dir = replay_dir.unwrap_or_else(|| PathBuf::from(format!("/verif/replays/{prop}")));
+        let replay_dir = replay_dir.unwrap_or_else(|| PathBuf::from(format!("{}/replays/{prop}", verif_root())));
         let _ = std::fs::create_dir_all(&replay_dir);
         let mut known = Vec::new();
-        let kf = known_file.unwrap_or_else(|| PathBuf::from("/verif/known_findings.txt"));
+        let kf = known_file.unwrap_or_else(|| PathBuf::from(format!("{}/known_findings.txt", verif_root())));
         if !strict {
             if let Ok(txt) = std::fs::read_to_string(&kf) {
                 for line in txt.lines() {
@@ -538,7 +543,7 @@ impl Ctx {
         if self.worker != 0 {
             return;
         }
-        let dir = PathBuf::from(format!("/verif/corpus/{}", self.prop));
+        let dir = PathBuf::from(format!("{}/corpus/{}", verif_root(), self.prop));
         let Ok(rd) = std::fs::read_dir(&dir) else { return };
         let mut files: Vec<_> = rd.filter_map(|e| e.ok()).map(|e| e.path()).filter(|p| p.extension().map(|e| e == "json").unwrap_or(false)).collect();
         files.sort();
@@ -660,4 +665,18 @@ pub fn pick_idx(draw: u16, len: usize) -> usize {
     } else {
         ((draw as usize) * len) >> 16
     }
+}
+
+/// Standard `main` of a harness binary: parse arguments, install hooks, run, write output.
+pub fn main_for(run: impl FnOnce(&Ctx)) -> ! {
+    let args: Vec<String> = std::env::args().skip(1).collect();
+    let ctx = Ctx::from_args(&args);
+    install_panic_hook();
+    let journal = ctx.replay_dir.join(format!("current-{}-{}.json", ctx.profile, ctx.worker));
+    if !ctx.is_replay() {
+        install_crash_handler(&journal);
+    }
+    run(&ctx);
+    let code = ctx.finish();
+    std::process::exit(code);
 }
